@@ -6,11 +6,13 @@ import MemchrModel.Driver.Util
 import MemchrModel.Driver.Generic
 import MemchrModel.Driver.IsEqualRk
 import MemchrModel.Driver.TwoWay
+import MemchrModel.Driver.Prefilter
+import MemchrModel.Driver.ShiftOrPair
 
 open Memchr Memchr.Driver
 
 def handlers : List (String → List String → Option String) :=
-  [handleGeneric, handleIsEqualRk, handleTwoWay]
+  [handleGeneric, handleIsEqualRk, handleTwoWay, handlePrefilter, handleShiftOrPair]
 
 def step (line : String) : String :=
   match line.trimAscii.toString.splitOn " " with
